@@ -1322,6 +1322,40 @@ bool dispatch_api(State& st, const std::string& op, const json& a, json& ret)
         ret = made;
         return true;
     }
+    if (op == "foreign_flags")
+    {
+        // Track columns that only Engine DJ (or the low-level 2.x table API) writes - locks, play state, import and streaming
+        // markers - set by SQL on one track ({"t": handle}) or on all of them.  Columns a version lacks are skipped.
+        sqlite3* conn = lib_conn();
+        auto info = raw_query(conn, st.is_v2 ? "PRAGMA table_info(Track)" : "PRAGMA music.table_info(Track)");
+        std::set<std::string> cols;
+        for (auto& r : info["rows"]) cols.insert(js(r[1].at("t")));
+        static const std::vector<std::pair<std::string, int>> cand = {
+            {"isBeatGridLocked", 1}, {"pdbImportKey", 9}, {"isMetadataImported", 1}, {"playedIndicator", 7}, {"explicitLyrics", 1},
+            {"thirdPartySourceId", 3}, {"streamingFlags", 5}, {"isPlayed", 1}, {"isAvailable", 0},
+            {"isMetadataOfPackedTrackChanged", 1}, {"isPerfomanceDataOfPackedTrackChanged", 1}};
+        std::string set;
+        json made = json::array();
+        long long pick = a.value("pick", -1LL);   // bit mask over the candidates; -1 = all
+        int bit = 0;
+        for (auto& [name, val] : cand)
+        {
+            bool want = pick < 0 || ((pick >> bit) & 1);
+            ++bit;
+            if (!want || !cols.count(name)) continue;
+            set += (set.empty() ? "" : ", ") + name + " = " + std::to_string(val);
+            made.push_back(name);
+        }
+        if (!set.empty())
+        {
+            if (a.contains("t"))
+                raw_query(conn, "UPDATE Track SET " + set + " WHERE id = ?", json::array({st.T(a.at("t").get<std::string>()).id()}));
+            else
+                raw_query(conn, "UPDATE Track SET " + set);
+        }
+        ret = made;
+        return true;
+    }
     if (op == "foreign_crate")
     {
         // A 2.x crate row as another writer leaves it: inserted by SQL (the schema's own triggers link it into the
